@@ -133,10 +133,10 @@ class CQueue:
 
     def get(self, block: bool = True, timeout: Any = None) -> Any:
         S.check()
-        if not self.d:
-            S.block_until(lambda: bool(self.d), 'qget')
-        else:
+        if self.d:
             S.point('qget')
+        while not self.d:
+            S.block_until(lambda: bool(self.d), 'qget')
         return self.d.popleft()
 
     def task_done(self) -> None:
@@ -150,10 +150,10 @@ class CLock:
 
     def acquire(self, blocking: bool = True, timeout: float = -1) -> bool:
         S.check()
-        if self.held:
+        if not self.held:
+            S.point('lock')     # may be preempted right before acquiring
+        while self.held:
             S.block_until(lambda: not self.held, 'lock')
-        else:
-            S.point('lock')
         self.held = True
         self.owner = S.me().name
         return True
